@@ -220,6 +220,71 @@ def odd_attrs_unchanged_ok(si: int, k: int) -> bool:
     return ret(before == after)
 
 
+LOOSE_SELECTORS = [sv.compile(s) for s in (
+    'p:first-of-type', ':nth-child(1)', ':nth-last-child(1 of p)', ':only-child', ':root', ':root > p', 'p:first-child > b',
+    ':last-of-type', ':nth-of-type(2n+1)', ':not(:first-child)', ':is(:only-of-type, div)', 'p', ':has(> b:first-child)',
+    ':empty', ':default', ':lang(en)', ':dir(ltr)', ':-soup-contains(x)')]
+
+
+def _loose():
+    d = bs4.BeautifulSoup('<div lang="en"><p class="a"><b>x</b><i></i></p><p>y</p></div>', 'html.parser')
+    a = d.div.extract()                       # removed from its document
+    b = d.new_tag('p')                        # never inserted
+    b.append(d.new_tag('b'))
+    x = bs4.BeautifulSoup('<r><e a="1"><f/></e></r>', 'xml').r.e.extract()
+    return [a, b, x]
+
+
+def _shape(el):
+    """Everything a query could have changed around a parentless element."""
+    out = [el.parent is None, el.next_sibling is None, el.previous_sibling is None, el.next_element is not None or True,
+           el.decode()]
+    for t in [el] + [t for t in el.descendants if isinstance(t, bs4.Tag)]:
+        out.append((id(t), id(t.parent) if t.parent is not None else None, len(t.contents), sorted(t.attrs.items())))
+    return out
+
+
+def loose_unchanged_ok(si: int, k: int) -> bool:
+    """
+    pre: 0 <= si < len(LOOSE_SELECTORS)
+    pre: 0 <= k < 5
+    post: _
+    """
+    # elements without a parent (extracted, never inserted; HTML and XML): a query leaves them parentless and unchanged, and
+    # the answers after it are the answers a pristine copy gives
+    si, k = concrete(si), concrete(k)
+    with notrace():
+        used, fresh = _loose(), _loose()
+        c = LOOSE_SELECTORS[si]
+        ok = True
+        for el in used:
+            before = _shape(el)
+            if k == 0:
+                c.match(el)
+            elif k == 1:
+                c.select(el)
+                c.select_one(el)
+            elif k == 2:
+                c.filter(el)
+                c.filter([el] + [t for t in el.descendants if isinstance(t, bs4.Tag)])
+            elif k == 3:
+                c.closest(el)
+                for t in el.descendants:
+                    if isinstance(t, bs4.Tag):
+                        c.closest(t)
+            else:
+                list(c.iselect(el, limit=1))
+                c.match(el)
+            ok = ok and _shape(el) == before
+        for el, twin in zip(used, fresh):
+            for o in LOOSE_SELECTORS:
+                ok = ok and bool(o.match(el)) == bool(o.match(twin)) and len(o.select(el)) == len(o.select(twin))
+                ok = ok and (o.closest(el) is el) == (o.closest(twin) is twin)
+                cl = o.closest(el)
+                ok = ok and (cl is None or cl is el)
+    return ret(ok)
+
+
 TWIN_MARKUP = ('<body><form><input type="radio" name="g"><button type="submit">go</button></form>'
                '<form><input type="radio" name="g"><button type="submit">go</button></form>'
                '<div><form><input type="radio" name="g"><button type="submit">go</button></form></div>'
